@@ -147,6 +147,11 @@ func monC16(w *World) {
 		scheme = "round-robin"
 	}
 	var recs []leaderRec
+	type headRec struct {
+		nd      *Node
+		signers string
+	}
+	headSigners := map[hotstuff.Hash]headRec{}
 	byView := map[hotstuff.View]hotstuff.ID{}
 	perNode := map[*Node][]leaderRec{}
 	f := 0
@@ -164,6 +169,18 @@ func monC16(w *World) {
 		head := nd.states.CommittedBlock()
 		rec := leaderRec{nd: nd, view: v, head: head, ans: id}
 		w.probe("c16-query")
+		if scheme == "carousel" || scheme == "reputation" {
+			// the history-based schemes read the signers of the certificate embedded in the committed head: replicas
+			// that "observed the same committed head" must hold the same certificate in it
+			signers := fmt.Sprint(participantsOf(head.QuorumCert().Signature()))
+			if prev, ok := headSigners[head.Hash()]; ok && prev.signers != signers && prev.nd != nd {
+				w.violate("C16", "C16/"+scheme+"/head-differs", nd, "%s and %s both have %s as committed head, but the certificate embedded in it names %s at one and %s at the other: the rotation is a function of it",
+					prev.nd, nd, w.reg.sym(head.Hash()), prev.signers, signers)
+				return
+			} else if !ok {
+				headSigners[head.Hash()] = headRec{nd, signers}
+			}
+		}
 		stateless := scheme == "round-robin" || scheme == "fixed" || scheme == "tree-leader"
 		if stateless || scheme == "carousel" {
 			if int(id) < 1 || int(id) > p.N {
